@@ -60,8 +60,18 @@ def r1(model, rep):
 
 
 class I2Hooks:
+    model = None
+
     def name(self, id):
         return DONTCARE if id == "DONTCARE" else None
+
+    def inline(self, fname):
+        """other methods of the interpolator class that the lookup delegates to"""
+        if self.model is not None and fname.startswith("self.") and fname[5:].isidentifier() and fname[5:] not in ("_intp", "_interp"):
+            m = self.model.own_method("_Interp2d", fname[5:])
+            if m is not None and not any(isinstance(x, (ast.For, ast.While)) for x in ast.walk(m)):
+                return m, True
+        return None
 
     def attr(self, base, attr):
         return None
@@ -130,7 +140,9 @@ def r2(model, rep):
             rep.violation("R2", "components._Interp2d.__init__", "%s:%d" % (rel, init.lineno), "%s = %s, expected %s" % (k, st.get(k), alts[0]), "interp2d init " + k)
     rep.instance("R2", "components._Interp2d.__init__", "%s:%d" % (rel, init.lineno), ok)
     # clamp table
-    sm = Summarizer(I2Hooks(), Ctx())
+    hk = I2Hooks()
+    hk.model = model
+    sm = Summarizer(hk, Ctx())
     qs = [a.arg for a in itp.args.args][1:]
     env = {"self": Sym(("name", "self")), qs[0]: fr("x"), qs[1]: fr("y")}
     try:
@@ -233,6 +245,16 @@ def r3_r4(model, rep):
                     rep.violation("R3", construct, "%s:%d" % (rel, flat[-1][2]), "the table flattening deviates from its six sibling blocks: %s" % info["deviant"], "flatten deviant: " + info["deviant"][:60])
                 else:
                     names = [x.key[1] if isinstance(x, Sym) and x.key[0] == "flat" else None for x in e[2]]
+                    if info["z"] is None and len(e[2]) == 3:
+                        # values flattened outside the loop: np.asarray(T['k']).reshape(1, -1)[0].tolist() and its two other spellings
+                        import re as _re
+                        txt = show_value(e[2][2]).replace(" ", "").replace('"', "'")
+                        m_ = _re.fullmatch(r"np\.asarray\((\w+)\['([a-z]+)'\]\)\.reshape\(1,-1\)\[0\]\.tolist\(\)", txt) or \
+                            _re.fullmatch(r"np\.asarray\((\w+)\['([a-z]+)'\]\)\.flatten\(\)\.tolist\(\)", txt) or _re.fullmatch(r"np\.ravel\((\w+)\['([a-z]+)'\]\)\.tolist\(\)", txt)
+                        if m_:
+                            info = dict(info)
+                            info["z"], info["zkey"] = "<values>", m_.group(2)
+                            names[2] = "<values>"
                     if names != [info["cur"], info["volt"], info["z"]]:
                         ok = False
                         rep.violation("R3", construct, where, "_Interp2d is called with (%s), expected (currents, voltages, values) = (%s, %s, %s)" % (", ".join(str(x) for x in names), info["cur"], info["volt"], info["z"]), "2-D block args")
